@@ -257,10 +257,10 @@ def mk_target(name):
     if name == 'nan':
         return float('nan')      # unordered with every number: <= is NOT the negation of >
     return {'m1': -1, 'z': 0, 'three': 3, 'five': 5, 'a': 'a', 'k3': {'k': 3}, 'k0': {'k': 0}, 'ka': {'k': 'a'}, 'nok': {'j': 1},
-            'kj': {'k': 3, 'j': 1}, 'jk': {'k': 1, 'j': 3}}[name]
+            'kj': {'k': 3, 'j': 1}, 'jk': {'k': 1, 'j': 3}, 'false': False, 'none': None}[name]
 
 
-TARGETS = ['m1', 'z', 'three', 'five', 'a', 'k3', 'k0', 'ka', 'nok', 'nan', 'kj', 'jk']
+TARGETS = ['m1', 'z', 'three', 'five', 'a', 'k3', 'k0', 'ka', 'nok', 'nan', 'kj', 'jk', 'false', 'none']
 
 
 def ref_outcome(term, tname, mode):
@@ -281,7 +281,7 @@ def run_case(case):
     return check_one(mode, term, tname, full)
 
 
-ORDERS = {'forward': list(range(12)), 'reverse': list(range(11, -1, -1)), 'interleaved': [3, 0, 7, 2, 11, 5, 1, 9, 10, 4, 8, 6, 3, 0]}
+ORDERS = {'forward': list(range(14)), 'reverse': list(range(13, -1, -1)), 'interleaved': [3, 0, 7, 12, 2, 11, 5, 1, 13, 9, 10, 4, 8, 6, 3, 0]}
 
 
 def run_history(case):
@@ -631,11 +631,11 @@ def subs(tier, only=None):
     out = [
         Sub('combinators', gen_cases(tier), run_case,
             rule='case = (mode auto|match, combinator term, target); terms enumerated level by level, deeper levels built from the first K '
-                 'terms per (constructor, outcome vector over the 12 targets)',
+                 'terms per (constructor, outcome vector over the 14 targets)',
             min_nontrivial=5000, min_outcomes=4,
             required_tags=['M', 'Mr', 'MT', 'Mbare', 'and', 'or', 'not', 'switch', 'auto', 'match']),
         Sub('reuse-histories', gen_histories(tier), run_history,
-            rule='case = (mode, combinator term, order): ONE spec object evaluated against all twelve targets in forward and reverse order (every ordered pair of targets occurs; '
+            rule='case = (mode, combinator term, order): ONE spec object evaluated against all fourteen targets in forward and reverse order (every ordered pair of targets occurs; '
                  'thorough: also an interleaved order with repeats); every call is compared with the reference for that target alone',
             min_nontrivial=5000, min_outcomes=6, required_tags=['switch', 'and', 'or', 'not', 'match', 'auto', 'reverse']),
         Sub('operator-derivations', gen_derivations(tier), run_derivation,
